@@ -237,6 +237,348 @@ Proof.
   - intros H; discriminate.
 Qed.
 
+(* ================================================================== written stores (C14, full statement) *)
+From Crusta Require Import Proofs.StoreBase Proofs.StoreProofs.
+
+(* ------------------------------------------------------------------ written stores *)
+(* the attacks of a store, in iteration order, as label pairs: [pairs] lists, for each attack
+   (a, b) of [iter_attacks], the labels that [iter_args] gives to the ids a and b *)
+Definition att_labels_are {L} (f : fw L) (pairs : list (L * L)) : Prop :=
+  Forall2 (fun ids labs => In (fst ids, fst labs) (iter_args L f) /\ In (snd ids, snd labs) (iter_args L f))
+          (iter_attacks L f) pairs.
+
+Notation SInv := (StoreProofs.Inv str).
+
+Lemma label_of_In (f : fw str) id l : SInv f ->
+  (label_of str f id = Some l <-> In (id, l) (iter_args str f)).
+Proof.
+  intros Hinv. unfold label_of, iter_args, ls_iter. rewrite (live_slot str f id l Hinv). split.
+  - destruct (nth id (slots (ls f)) None) as [[i l']|] eqn:E; [|discriminate].
+    intros [= ->]. pose proof (inv_id str f Hinv id _ E) as Hi. cbn [fst] in Hi. subst i. reflexivity.
+  - intros ->. reflexivity.
+Qed.
+
+Lemma att_lines_ok (f : fw str) : SInv f -> forall atts, incl atts (iter_attacks str f) ->
+  exists pairs,
+    Forall2 (fun ids labs => In (fst ids, fst labs) (iter_args str f) /\ In (snd ids, snd labs) (iter_args str f))
+            atts pairs /\
+    att_lines str utf8_encode f atts =
+    Some (flat_map (fun p => Writers.att_line str utf8_encode (fst p) (snd p)) pairs).
+Proof.
+  intros Hinv. induction atts as [|[a b] r IH]; intros Hincl.
+  - exists []. split; [constructor|reflexivity].
+  - destruct IH as [pairs [HF Hl]]; [intros x Hx; apply Hincl; right; exact Hx|].
+    assert (Hin : In (a, b) (iter_attacks str f)) by (apply Hincl; left; reflexivity).
+    unfold iter_attacks in Hin. apply In_fs_nth in Hin. destruct Hin as [k Hk].
+    destruct (inv_live str f Hinv k a b Hk) as [Ha [Hb _]].
+    destruct (label_of str f a) as [la|] eqn:Ela.
+    2:{ exfalso. unfold label_of in Ela. destruct (nth a (slots (ls f)) None) as [[i l]|]; [discriminate|congruence]. }
+    destruct (label_of str f b) as [lb|] eqn:Elb.
+    2:{ exfalso. unfold label_of in Elb. destruct (nth b (slots (ls f)) None) as [[i l]|]; [discriminate|congruence]. }
+    exists ((la, lb) :: pairs). split.
+    + constructor; [|exact HF]. cbn [fst snd]. split; apply (label_of_In f _ _ Hinv); assumption.
+    + cbn [att_lines flat_map fst snd]. rewrite Ela, Elb, Hl. reflexivity.
+Qed.
+
+Lemma fst_functional {A B} (l : list (A * B)) k x y :
+  NoDup (map fst l) -> In (k, x) l -> In (k, y) l -> x = y.
+Proof.
+  induction l as [|[k' z] l IH]; intros Hnd Hx Hy; [destruct Hx|].
+  cbn [map fst] in Hnd. inversion Hnd as [|? ? Hn Hnd']; subst.
+  destruct Hx as [Hx|Hx]; destruct Hy as [Hy|Hy].
+  - congruence.
+  - injection Hx as -> ->. exfalso. apply Hn. apply in_map_iff. exists (k, y). split; [reflexivity|assumption].
+  - injection Hy as -> ->. exfalso. apply Hn. apply in_map_iff. exists (k, x). split; [reflexivity|assumption].
+  - apply IH; assumption.
+Qed.
+
+Lemma Forall2_NoDup {A B} (R : A -> B -> Prop) l1 l2 :
+  (forall x x' y, R x y -> R x' y -> x = x') -> Forall2 R l1 l2 -> NoDup l1 -> NoDup l2.
+Proof.
+  intros Hinj HF. induction HF as [|x y l1 l2 Hxy HF IH]; intros Hnd; [constructor|].
+  inversion Hnd as [|? ? Hn Hnd']; subst. constructor; [|apply IH, Hnd'].
+  intros Hin. apply Hn. clear IH Hnd Hnd' Hn.
+  induction HF as [|x' y' l1 l2 Hxy' HF IH]; [destruct Hin|].
+  destruct Hin as [->|Hin]; [left; eapply Hinj; eassumption|right; apply IH, Hin].
+Qed.
+
+Lemma Forall2_map_l {A B} (R : A -> B -> Prop) (g : B -> A) l :
+  (forall p, In p l -> R (g p) p) -> Forall2 R (map g l) l.
+Proof.
+  induction l as [|p l IH]; intros H; cbn [map]; constructor.
+  - apply H. left; reflexivity.
+  - apply IH. intros q Hq. apply H. right; exact Hq.
+Qed.
+
+Lemma NoDup_map_on {A B} (g : A -> B) l :
+  (forall x y, In x l -> In y l -> g x = g y -> x = y) -> NoDup l -> NoDup (map g l).
+Proof.
+  induction l as [|x l IH]; intros Hinj Hnd; cbn [map]; [constructor|].
+  inversion Hnd as [|? ? Hn Hnd']; subst. constructor.
+  - intros Hin. apply in_map_iff in Hin. destruct Hin as [y [Hy Hin]].
+    assert (y = x) by (apply Hinj; [right; assumption|left; reflexivity|assumption]). subst y. contradiction.
+  - apply IH; [|assumption]. intros a b Ha Hb. apply Hinj; right; assumption.
+Qed.
+
+(* the set-level run of a list of attack insertions between existing labels, none of them twice *)
+Definition sid (s : sstore str) (l : str) : nat :=
+  match s_find str str_eqb s l with Some k => k | None => 0 end.
+Definition idp (s : sstore str) (p : str * str) : nat * nat := (sid s (fst p), sid s (snd p)).
+
+Lemma fold_new_att pairs : forall s,
+  (forall p, In p pairs -> s_find str str_eqb s (fst p) <> None /\ s_find str str_eqb s (snd p) <> None) ->
+  NoDup (rel s ++ map (idp s) pairs) ->
+  fold_left (fun s o => fst (s_step str str_eqb s o)) (map mkop pairs) s =
+  {| next_id := next_id s; live := live s; rel := rel s ++ map (idp s) pairs |}.
+Proof.
+  induction pairs as [|[a b] r IH]; intros s Hfind Hnd; cbn [map fold_left].
+  - rewrite app_nil_r. destruct s; reflexivity.
+  - destruct (Hfind (a, b) (or_introl eq_refl)) as [Ha Hb]. cbn [fst snd] in Ha, Hb.
+    cbn [mkop fst snd s_step].
+    destruct (s_find str str_eqb s a) as [x|] eqn:Ex; [|congruence].
+    destruct (s_find str str_eqb s b) as [y|] eqn:Ey; [|congruence].
+    assert (Hidp : idp s (a, b) = (x, y)).
+    { unfold idp, sid. cbn [fst snd]. rewrite Ex, Ey. reflexivity. }
+    cbn [map] in Hnd. rewrite Hidp in Hnd.
+    assert (Hno : s_has_att str s (x, y) = false).
+    { destruct (s_has_att str s (x, y)) eqn:E; [|reflexivity]. exfalso.
+      unfold s_has_att in E. apply existsb_exists in E. destruct E as [q [Hq Hpq]].
+      apply (pair_eqb_eq (x, y) q) in Hpq. subst q.
+      apply NoDup_remove_2 in Hnd. apply Hnd. apply in_or_app. left; assumption. }
+    rewrite Hno. cbn [fst].
+    set (s' := {| next_id := next_id s; live := live s; rel := rel s ++ [(x, y)] |}).
+    assert (Hsame : forall l, s_find str str_eqb s' l = s_find str str_eqb s l) by reflexivity.
+    assert (Hidp' : forall p, idp s' p = idp s p) by reflexivity.
+    rewrite (IH s').
+    + cbn [next_id live rel s']. rewrite (map_ext _ _ Hidp'), Hidp, <- app_assoc. reflexivity.
+    + intros p Hp. rewrite !Hsame. apply Hfind. right; exact Hp.
+    + cbn [rel s']. rewrite (map_ext _ _ Hidp'), <- app_assoc. exact Hnd.
+Qed.
+
+Lemma s_find_some (s : sstore str) l : In l (map snd (live s)) -> s_find str str_eqb s l <> None.
+Proof.
+  intros Hin. unfold s_find. destruct (find (fun p => str_eqb l (snd p)) (live s)) eqn:E; [discriminate|].
+  exfalso. apply in_map_iff in Hin. destruct Hin as [p [<- Hp]].
+  pose proof (find_none _ _ E p Hp) as Hf. cbn beta in Hf. rewrite str_eqb_refl in Hf. discriminate.
+Qed.
+
+Lemma sid_In (s : sstore str) l : In l (map snd (live s)) -> In (sid s l, l) (live s).
+Proof.
+  intros Hin. pose proof (s_find_some s l Hin) as Hs. unfold sid.
+  destruct (s_find str str_eqb s l) as [k|] eqn:E; [|congruence].
+  apply (s_find_In str str_eqb str_eqb_spec). exact E.
+Qed.
+
+(* shape of the framework the reader builds from distinct labels and distinct attacks *)
+Lemma apx_result_shape labels pairs : NoDup labels -> NoDup pairs ->
+  (forall p, In p pairs -> In (fst p) labels /\ In (snd p) labels) ->
+  iter_args str (apx_result labels pairs) = numbered 0 labels /\
+  att_labels_are (apx_result labels pairs) pairs.
+Proof.
+  intros Hndl Hndp Hin.
+  set (f0 := fw_new_with_labels str str_eqb labels).
+  assert (Hinv0 : SInv f0) by apply (init_inv str str_eqb str_eqb_spec).
+  assert (Hlive0 : live (abs str f0) = numbered 0 labels).
+  { unfold abs. cbn [live]. unfold f0. rewrite init_iter_args.
+    rewrite (dedup_nodup str str_eqb str_eqb_spec); [reflexivity|exact Hndl]. }
+  assert (Hrel0 : rel (abs str f0) = []) by reflexivity.
+  assert (Hlab0 : map snd (live (abs str f0)) = labels) by (rewrite Hlive0; apply map_snd_numbered).
+  pose proof (run_refines str str_eqb str_eqb_spec (map mkop pairs) f0 Hinv0) as Habs.
+  change (run_ops str str_eqb f0 (map mkop pairs)) with (apx_result labels pairs) in Habs.
+  assert (Hsid_inj : forall l l', In l labels -> In l' labels ->
+            sid (abs str f0) l = sid (abs str f0) l' -> l = l').
+  { intros l l' Hl Hl' He. rewrite <- Hlab0 in Hl, Hl'.
+    pose proof (sid_In _ _ Hl) as H1. pose proof (sid_In _ _ Hl') as H2. rewrite He in H1.
+    eapply fst_functional; [|exact H1|exact H2].
+    rewrite Hlive0, map_fst_numbered. apply seq_NoDup. }
+  rewrite fold_new_att in Habs.
+  - assert (Hargs : iter_args str (apx_result labels pairs) = numbered 0 labels).
+    { change (iter_args str (apx_result labels pairs)) with (live (abs str (apx_result labels pairs))).
+      rewrite Habs. cbn [live]. exact Hlive0. }
+    split; [exact Hargs|].
+    unfold att_labels_are. rewrite Hargs.
+    change (iter_attacks str (apx_result labels pairs)) with (rel (abs str (apx_result labels pairs))).
+    rewrite Habs. cbn [rel]. rewrite Hrel0. cbn [app]. apply Forall2_map_l.
+    intros p Hp. destruct (Hin p Hp) as [Ha Hb]. rewrite <- Hlive0. unfold idp. cbn [fst snd].
+    split; apply sid_In; rewrite Hlab0; assumption.
+  - intros p Hp. destruct (Hin p Hp) as [Ha Hb]. split; apply s_find_some; rewrite Hlab0; assumption.
+  - rewrite Hrel0. cbn [app]. apply NoDup_map_on; [|exact Hndp].
+    intros [a b] [a' b'] Hp Hp' He. unfold idp in He. cbn [fst snd] in He. injection He as E1 E2.
+    destruct (Hin _ Hp) as [Ha Hb]. destruct (Hin _ Hp') as [Ha' Hb']. cbn [fst snd] in *.
+    f_equal; apply Hsid_inj; assumption.
+Qed.
+
+(* what is written for a reachable store is read back as the same labels, in the same order, and
+   the same attacks (as label pairs), in the same order *)
+Lemma read_of_written_store (f : fw str) :
+  (exists ls os, f = run_ops str str_eqb (fw_new_with_labels str str_eqb ls) os) ->
+  Forall (fun p => is_ident (snd p) = true) (iter_args str f) ->
+  exists bytes f' pairs,
+    write_apx str utf8_encode f = Some bytes /\
+    read_apx bytes = RdOk f' /\
+    f' = apx_result (map snd (iter_args str f)) pairs /\
+    iter_args str f' = numbered 0 (map snd (iter_args str f)) /\
+    att_labels_are f pairs /\ att_labels_are f' pairs.
+Proof.
+  intros Hr Hid. pose proof (reach_inv str str_eqb str_eqb_spec f Hr) as Hinv.
+  destruct (att_lines_ok f Hinv (iter_attacks str f) (incl_refl _)) as [pairs [HF Hl]].
+  set (labels := map snd (iter_args str f)).
+  assert (Hndl : NoDup labels) by exact (inv_lab str f Hinv).
+  assert (Hin : forall p, In p pairs -> In (fst p) labels /\ In (snd p) labels).
+  { clear Hl. induction HF as [|ids labs l1 l2 [H1 H2] HF IH]; intros p Hp; [destruct Hp|].
+    destruct Hp as [<-|Hp]; [|apply IH, Hp].
+    split; [exact (in_map snd _ _ H1)|exact (in_map snd _ _ H2)]. }
+  assert (Hndp : NoDup pairs).
+  { eapply Forall2_NoDup; [|exact HF|exact (inv_ndatt str f Hinv)].
+    intros [a b] [a' b'] [la lb]. cbn [fst snd]. intros [H1 H2] [H1' H2'].
+    f_equal; eapply snd_functional; try eassumption; exact Hndl. }
+  destruct (apx_result_shape labels pairs Hndl Hndp Hin) as [Hargs Hatts].
+  exists (flat_map (Writers.arg_line str utf8_encode) labels ++
+          flat_map (fun p => Writers.att_line str utf8_encode (fst p) (snd p)) pairs),
+         (apx_result labels pairs), pairs.
+  split; [|split; [|split; [reflexivity|split; [exact Hargs|split; [exact HF|exact Hatts]]]]].
+  - unfold write_apx. rewrite Hl. cbn [option_map]. unfold labels. rewrite flat_map_map. reflexivity.
+  - apply read_written; [|exact Hin].
+    unfold labels. apply Forall_forall. intros l Hl'. apply in_map_iff in Hl'. destruct Hl' as [p [<- Hp]].
+    rewrite Forall_forall in Hid. apply Hid, Hp.
+Qed.
+
+(* set view: [la] attacks [lb] in the store [f] *)
+Definition has_att_lab {L} (f : fw L) (la lb : L) : Prop :=
+  exists a b, In (a, la) (iter_args L f) /\ In (b, lb) (iter_args L f) /\ In (a, b) (iter_attacks L f).
+
+Lemma att_labels_set {L} (f : fw L) pairs :
+  (forall k x y, In (k, x) (iter_args L f) -> In (k, y) (iter_args L f) -> x = y) ->
+  att_labels_are f pairs -> forall la lb, has_att_lab f la lb <-> In (la, lb) pairs.
+Proof.
+  intros Hfun HF la lb. unfold has_att_lab, att_labels_are in *.
+  induction HF as [|ids labs l1 l2 [H1 H2] HF IH].
+  - split; [intros [a [b [_ [_ []]]]]|intros []].
+  - split.
+    + intros [a [b [Ha [Hb [Hab|Hab]]]]].
+      * subst ids. cbn [fst snd] in H1, H2. left. destruct labs as [x y]. cbn [fst snd] in H1, H2.
+        f_equal; eapply Hfun; eassumption.
+      * right. apply IH. exists a, b. split; [assumption|]. split; assumption.
+    + intros [Hl|Hl].
+      * subst labs. cbn [fst snd] in H1, H2. exists (fst ids), (snd ids).
+        split; [assumption|]. split; [assumption|]. left. destruct ids; reflexivity.
+      * apply IH in Hl. destruct Hl as [a [b [Ha [Hb Hab]]]]. exists a, b.
+        split; [assumption|]. split; [assumption|]. right. assumption.
+Qed.
+
+Lemma args_functional (f : fw str) : SInv f ->
+  forall k x y, In (k, x) (iter_args str f) -> In (k, y) (iter_args str f) -> x = y.
+Proof.
+  intros Hinv k x y Hx Hy. unfold iter_args, ls_iter in Hx, Hy.
+  apply (live_slot str f k x Hinv) in Hx. apply (live_slot str f k y Hinv) in Hy. congruence.
+Qed.
+
+(* the statement of Properties/C14.v *)
+Lemma read_of_written_full (f : fw str) :
+  (exists ls os, f = run_ops str str_eqb (fw_new_with_labels str str_eqb ls) os) ->
+  Forall (fun p => is_ident (snd p) = true) (iter_args str f) ->
+  exists bytes f' pairs,
+    write_apx str utf8_encode f = Some bytes /\
+    read_apx bytes = RdOk f' /\
+    iter_args str f' = numbered 0 (map snd (iter_args str f)) /\
+    att_labels_are f pairs /\ att_labels_are f' pairs /\
+    (forall la lb, has_att_lab f' la lb <-> has_att_lab f la lb) /\
+    n_arguments str f' = n_arguments str f /\ n_attacks str f' = n_attacks str f.
+Proof.
+  intros Hr Hid. destruct (read_of_written_store f Hr Hid) as [bytes [f' [pairs [H1 [H2 [H3 [H4 [H5 H6]]]]]]]].
+  pose proof (reach_inv str str_eqb str_eqb_spec f Hr) as Hinv.
+  assert (Hinv' : SInv f').
+  { rewrite H3. unfold apx_result. apply (run_inv str str_eqb str_eqb_spec), (init_inv str str_eqb str_eqb_spec). }
+  exists bytes, f', pairs.
+  split; [exact H1|]. split; [exact H2|]. split; [exact H4|]. split; [exact H5|]. split; [exact H6|].
+  split; [|split].
+  - intros la lb.
+    rewrite (att_labels_set f' pairs (args_functional f' Hinv') H6 la lb).
+    rewrite (att_labels_set f pairs (args_functional f Hinv) H5 la lb). reflexivity.
+  - assert (Hn : forall g, SInv g -> n_arguments str g = length (iter_args str g)).
+    { intros g Hg. unfold n_arguments, ls_len, iter_args, ls_iter. pose proof (inv_nrem str g Hg). lia. }
+    rewrite (Hn f' Hinv'), (Hn f Hinv), H4.
+    assert (Hlen : forall (l : list str) off, length (numbered off l) = length l).
+    { induction l as [|x l IH]; intros off; cbn [numbered length]; [reflexivity|]. rewrite IH. reflexivity. }
+    rewrite Hlen, map_length. reflexivity.
+  - assert (Hn : forall g, SInv g -> n_attacks str g = length (iter_attacks str g)).
+    { intros g Hg. unfold n_attacks, iter_attacks. pose proof (inv_nrema str g Hg). lia. }
+    rewrite (Hn f' Hinv'), (Hn f Hinv).
+    assert (HFl : forall (A B : Type) (R : A -> B -> Prop) l1 l2, Forall2 R l1 l2 -> length l1 = length l2).
+    { intros A B R l1 l2 HF. induction HF as [|x y l1 l2 _ _ IH]; cbn [length]; [reflexivity|]. rewrite IH. reflexivity. }
+    unfold att_labels_are in H5, H6. apply HFl in H5, H6. congruence.
+Qed.
+
+
+(* set-level run of attack insertions, duplicates allowed *)
+Lemma fold_new_att_set pairs : forall s,
+  (forall p, In p pairs -> s_find str str_eqb s (fst p) <> None /\ s_find str str_eqb s (snd p) <> None) ->
+  let s' := fold_left (fun s o => fst (s_step str str_eqb s o)) (map mkop pairs) s in
+  live s' = live s /\
+  forall q, In q (rel s') <-> In q (rel s) \/ In q (map (idp s) pairs).
+Proof.
+  induction pairs as [|[a b] r IH]; intros s Hfind; cbn [map fold_left].
+  - split; [reflexivity|]. intros q. split; [auto|intros [H|[]]; exact H].
+  - destruct (Hfind (a, b) (or_introl eq_refl)) as [Ha Hb]. cbn [fst snd] in Ha, Hb.
+    cbn [mkop fst snd s_step].
+    destruct (s_find str str_eqb s a) as [x|] eqn:Ex; [|congruence].
+    destruct (s_find str str_eqb s b) as [y|] eqn:Ey; [|congruence].
+    assert (Hidp : idp s (a, b) = (x, y)).
+    { unfold idp, sid. cbn [fst snd]. rewrite Ex, Ey. reflexivity. }
+    rewrite Hidp.
+    assert (Hr : forall p, In p r -> s_find str str_eqb s (fst p) <> None /\ s_find str str_eqb s (snd p) <> None).
+    { intros p Hp. apply Hfind. right; exact Hp. }
+    destruct (s_has_att str s (x, y)) eqn:Ehas; cbn [fst].
+    + destruct (IH s Hr) as [H1 H2]. split; [exact H1|]. intros q. rewrite H2. cbn [In].
+      unfold s_has_att in Ehas. apply existsb_exists in Ehas. destruct Ehas as [q' [Hq' Hpq]].
+      apply (pair_eqb_eq (x, y) q') in Hpq. subst q'.
+      split; [tauto|]. intros [H|[H|H]]; [tauto|subst q; tauto|tauto].
+    + set (s' := {| next_id := next_id s; live := live s; rel := rel s ++ [(x, y)] |}).
+      assert (Hidp' : forall p, idp s' p = idp s p) by reflexivity.
+      destruct (IH s') as [H1 H2]; [exact Hr|]. split; [exact H1|]. intros q. rewrite H2.
+      cbn [rel s' In]. rewrite (map_ext _ _ Hidp'), in_app_iff. cbn [In]. tauto.
+Qed.
+
+(* the attack set of the framework the Aspartix reader returns, as label pairs: exactly the
+   declared attacks (duplicate declarations and duplicate attack lines allowed) *)
+Lemma apx_result_attacks decls atts :
+  (forall p, In p atts -> In (fst p) decls /\ In (snd p) decls) ->
+  NoDup (iter_attacks str (apx_result decls atts)) /\
+  forall la lb, has_att_lab (apx_result decls atts) la lb <-> In (la, lb) atts.
+Proof.
+  intros Hin.
+  set (f0 := fw_new_with_labels str str_eqb decls).
+  assert (Hinv0 : SInv f0) by apply (init_inv str str_eqb str_eqb_spec).
+  assert (Hinv : SInv (apx_result decls atts)).
+  { unfold apx_result. apply (run_inv str str_eqb str_eqb_spec), Hinv0. }
+  split; [exact (inv_ndatt str _ Hinv)|].
+  assert (Hlive0 : live (abs str f0) = numbered 0 (dedup str_eqb [] decls)).
+  { unfold abs. cbn [live]. unfold f0. apply init_iter_args. }
+  assert (Hlab0 : forall l, In l decls -> In l (map snd (live (abs str f0)))).
+  { intros l Hl. rewrite Hlive0, map_snd_numbered. apply dedup_In_iff. exact Hl. }
+  pose proof (run_refines str str_eqb str_eqb_spec (map mkop atts) f0 Hinv0) as Habs.
+  change (run_ops str str_eqb f0 (map mkop atts)) with (apx_result decls atts) in Habs.
+  destruct (fold_new_att_set atts (abs str f0)) as [Hl Hr].
+  { intros p Hp. destruct (Hin p Hp) as [Ha Hb]. split; apply s_find_some, Hlab0; assumption. }
+  rewrite <- Habs in Hl, Hr.
+  assert (Hfun : forall k x y, In (k, x) (live (abs str f0)) -> In (k, y) (live (abs str f0)) -> x = y).
+  { intros k x y. apply fst_functional. rewrite Hlive0, map_fst_numbered. apply seq_NoDup. }
+  intros la lb. unfold has_att_lab.
+  change (iter_args str (apx_result decls atts)) with (live (abs str (apx_result decls atts))).
+  change (iter_attacks str (apx_result decls atts)) with (rel (abs str (apx_result decls atts))).
+  rewrite Hl. split.
+  - intros [a [b [Ha [Hb Hab]]]]. apply Hr in Hab. destruct Hab as [[]|Hab].
+    apply in_map_iff in Hab. destruct Hab as [[pa pb] [Hp Hpin]].
+    unfold idp in Hp. cbn [fst snd] in Hp. injection Hp as <- <-.
+    destruct (Hin _ Hpin) as [Hpa Hpb]. cbn [fst snd] in Hpa, Hpb.
+    pose proof (sid_In _ _ (Hlab0 _ Hpa)) as H1. pose proof (sid_In _ _ (Hlab0 _ Hpb)) as H2.
+    rewrite (Hfun _ _ _ Ha H1), (Hfun _ _ _ Hb H2). exact Hpin.
+  - intros Hp. destruct (Hin _ Hp) as [Hpa Hpb]. cbn [fst snd] in Hpa, Hpb.
+    exists (sid (abs str f0) la), (sid (abs str f0) lb).
+    split; [apply sid_In, Hlab0, Hpa|]. split; [apply sid_In, Hlab0, Hpb|].
+    apply Hr. right. apply in_map_iff. exists (la, lb). split; [reflexivity|exact Hp].
+Qed.
+
 (* ------------------------------------------------------------------ the hypotheses are satisfiable *)
 Definition ex_iccma_file : iccma_file :=
   {| f_head := [[32; 99]]; f_pre := [9]; f_sep1 := [32]; f_sep2 := [32; 160];
